@@ -240,6 +240,50 @@ def run(ctx):
                 if not same_value(got, want):
                     res.violations.append({'what': '& / CONCAT / CONCATENATE must join the texts exactly',
                                            'input': {'formula': f}, 'expected': want, 'got': got})
+    # arguments supplied through CELLS of one re-used compiled model that are overwritten with set_cell_value
+    # between the evaluations ("numbers and booleans passed as text are first converted to their text form":
+    # the text form of the value the cell holds NOW).  Every ordered pair of consecutive values occurs (Euler walk).
+    twins = [1, True, 1.0, '1', 0, False, 0.0, '0', 'TRUE', 'true', 'True', 2, 2.0, '2.0', 'ab', 'AB', 'ab ', '',
+             -1, '-1', 10, '10', 1.5, '1.5']
+    forms = {'B1': ('LEN', lambda v: (v,), '=LEN(A1)'), 'B2': ('UPPER', lambda v: (v,), '=UPPER(A1)'),
+             'B3': ('LOWER', lambda v: (v,), '=LOWER(A1)'), 'B4': ('LEFT', lambda v: (v, 2), '=LEFT(A1,2)'),
+             'B5': ('RIGHT', lambda v: (v, 1), '=RIGHT(A1,1)'), 'B6': ('CONCAT', lambda v: (v, '|', v), '=A1&"|"&A1'),
+             'B7': ('EXACT', lambda v: (v, 'TRUE'), '=EXACT(A1,"TRUE")'), 'B8': ('MID', lambda v: (v, 1, 3), '=MID(A1,1,3)'),
+             'B9': ('TRIM', lambda v: (v,), '=TRIM(A1)'), 'B10': ('FIND', lambda v: ('1', v), '=FIND("1",A1)'),
+             'B11': ('REPLACE', lambda v: ('abcd', 2, 1, v), '=REPLACE("abcd",2,1,A1)'),
+             'B12': ('CONCATENATE', lambda v: (v, v), '=CONCATENATE(A1,A1)')}
+    walk, n = [], len(twins)
+    for d in range(1, n):            # every ordered pair (i, i+d) appears as consecutive elements
+        i = 0
+        while True:
+            walk.append(twins[i])
+            i = (i + d) % n
+            if i == 0:
+                break
+    walk = walk if ctx.tier == 'thorough' or ctx.widen else walk[:260] + walk[::7]
+    cells = {'Sheet1!A1': 5}
+    cells.update({f'Sheet1!{k}': f for k, (_fn, _mk, f) in forms.items()})
+    model = ModelCompiler().read_and_parse_dict(cells)
+    evl = Evaluator(model)
+    prev = 5
+    hist_n = 0
+    for v in walk:
+        if isinstance(v, str) and v == '':
+            model.set_cell_value('Sheet1!A1', v)
+        else:
+            evl.set_cell_value('Sheet1!A1', v)
+        for k, (fn, mk, f) in forms.items():
+            want = call_real(xl.FUNCTIONS[fn], *mk(v))
+            got = call_real(evl.evaluate, f'Sheet1!{k}')
+            res.evaluations += 1
+            hist_n += 1
+            res.nontrivial.add(('hist', k, repr(prev), repr(v)))
+            if not same_value(got, want):
+                res.violations.append({'what': f'{fn} on a re-used model differs from the direct call on the value the cell holds now',
+                                       'input': {'formula': f, 'A1': repr(v), 'previous value of A1': repr(prev)},
+                                       'expected': want, 'got': got})
+        prev = v
+    res.count('via_history(set_cell_value)', hist_n)
     res.count('via_formula', via_formula)
     if res.drift:
         res.notes.append(f'{len(res.drift)} model/implementation differences where the code still meets Spec')
